@@ -110,7 +110,7 @@ def run(ctx):
         one(s, nz, G, [3.0, 5.0, 10.0][k % 3], ("lattice", len(ev["sig"]), ev["hasnoise"], G), dtype_k=k % 3)
         ctx.case(("lattice", len(ev["sig"]), ev["hasnoise"], G, k % 3, s.shape[-1]), {"sig": ev["sig"], "noise": ev["noise"], "G": G})
     ctx.behaviours += len(evs)
-    for it in range(120 if T else 40):
+    for it in range(600 if T else 40):
         with warnings.catch_warnings():
             warnings.simplefilter("ignore")
             gv(sps=rnd.choice([4, 8, 16]), R=rnd.choice([1e9, 2.5e9, 10e9]), wavelength=rnd.choice([1550e-9, 1310e-9, 1064e-9]))
